@@ -16,7 +16,7 @@ RULE = ('request kinds (vlib/site.py): ok (sets cookie, header, status from its 
         'setting a header and a cookie, raised HTTPResponse with header and cookie, generator body, cookie-then-abort(403); every request is a function of (kind, n). '
         'Histories: operation lists of 2-30 requests generated as one shrinkable value, plus EVERY ordered pair of kinds exhaustively, plus every ordered triple '
         'whose middle element is an error kind (thorough). Oracle: response k of the history (status line, header multiset, body) == response of the same request '
-        'on a fresh application; references are computed before the application under test is created. Retention: environ objects (dict subclass) and input '
+        'on a fresh application; references are computed before the application under test is created, those of the exhaustive pairs / triples in fresh interpreter processes (one request per process). Retention: environ objects (dict subclass) and input '
         'streams are weak-referenced; after N = 160 and N = 400 requests of one kind (and mixed) plus gc.collect() at most 10 are alive (the last request of the thread plus the last failing request referenced by each of the three shared error objects), the number does not grow between the two points, and the number of gc-tracked '
         'objects has not grown by more than 40 between N = 160 and N = 400 (300 and 2000 in thorough; N1 lies beyond the 128-entry urlsplit cache of the standard library). Non-trivial = consecutive requests of different kinds where the '
         'earlier one left state (cookie / header / status / error); distinct ordered kind pairs covered are reported.')
@@ -32,8 +32,13 @@ def triple(r):
     return (r.status, sorted(r.headers or []), r.body)
 
 
+_FRESH = {}          # references computed in fresh interpreter processes (vlib/fresh.py), consulted first
+
+
 def reference(kind, n, cache):
     key = (kind, n)
+    if key in _FRESH:
+        return _FRESH[key]
     if key not in cache:
         app = S.make_app(private_errors=True)
         r = call_app(app, S.make_env(kind, n))
@@ -146,6 +151,13 @@ def run(ctx):
         ctx.count('corpus')
     # exhaustive: every ordered pair of kinds (and x-error-y triples in thorough)
     pairs = list(itertools.product(S.KINDS, repeat=2))
+    from vlib import fresh
+    got = fresh.references([(k, n, 'default', False) for k in S.KINDS for n in (1, 2, 3, 4, 5, 6, 7)])
+    for (k, n, _, _), v in got.items():
+        if v[0] == 'escaped':
+            raise CheckFailure(f'reference request {k, n} raised {v[1]}')
+        _FRESH[(k, n)] = v
+    ctx.count('references_from_fresh_processes', len(got))
     for a, b in pairs[ctx.shard::max(1, ctx.nshards)]:
         ctx.guarded(check_history, {'history': [[a, 1], [b, 2]]})
         ctx.guarded(check_history, {'history': [[a, 3], [b, 3], [a, 4]]})
